@@ -14,7 +14,15 @@ def decode(p):
         return p
 
 
+def equal(go, model, attrs):
+    """section-wise comparison: the model prints U for a probe section it cannot give (value it does not know, or the
+    probe left the model: then also every later section); everything else must be equal, section by section"""
+    gs, ms = go.split(";"), model.split(";")
+    return len(gs) == len(ms) and all(y == "U" or x == y for x, y in zip(gs, ms))
+
+
 SPEC = dict(
+    equal=equal,
     lean_modules=["Ecal.Props.C05"],
     shards=12,
     rule=("cases = programs over the names {a,b,c,f,g,o} + probe expressions evaluated afterwards in the same global scope: "
